@@ -12,13 +12,13 @@ CONSTANTS TMin, TMax
 InWindow(dt) == dt \in (TMin - 1) .. (TMax + 1)
 
 Traces == JsonDeserialize(IOEnv.TRACE_FILE)
-VARIABLES h, n, h2n, n2h, hsub, nsub, hUp, nUp, res, canc, tw, tid, l
-tvars == <<h, n, h2n, n2h, hsub, nsub, hUp, nUp, res, canc, tw, tid, l>>
+VARIABLES h, n, h2n, n2h, hsub, nsub, hUp, nUp, res, canc, tw, heldH, heldN, tid, l
+tvars == <<h, n, h2n, n2h, hsub, nsub, hUp, nUp, res, canc, tw, heldH, heldN, tid, l>>
 Tr == Traces[tid]
 
 TInit == /\ tid \in 1 .. Len(Traces) /\ l = 1
          /\ h = HInit /\ n = NInit /\ h2n = <<>> /\ n2h = <<>>
-         /\ hsub = {} /\ nsub = {} /\ hUp = <<>> /\ nUp = <<>> /\ res = <<>> /\ canc = {} /\ tw = 0
+         /\ hsub = {} /\ nsub = {} /\ hUp = <<>> /\ nUp = <<>> /\ res = <<>> /\ canc = {} /\ tw = 0 /\ heldH = <<>> /\ heldN = <<>>
 
 Proj(s, K) == SelectSeq(s, LAMBDA o : o.o \in K)
 Frames(out) == LET w == Proj(out, {"write"}) IN [i \in 1 .. Len(w) |-> w[i].f]
@@ -51,9 +51,9 @@ TNext ==
   /\ l <= Len(Tr)
   /\ LET e == Tr[l] IN
        \/ /\ e.a = "hsubmit" /\ HostApply(e, StepSubmit(h, e.id, e.id))
-          /\ hsub' = hsub \cup {e.id} /\ UNCHANGED <<n, n2h, nsub, nUp, canc>>
+          /\ hsub' = hsub \cup {e.id} /\ UNCHANGED <<n, n2h, nsub, nUp, canc, heldH, heldN>>
        \/ /\ e.a = "nsubmit" /\ NcpApply(e, NSubmitFn(n, e.pl))
-          /\ nsub' = nsub \cup {e.pl} /\ UNCHANGED <<h, h2n, hsub, hUp, res, canc, tw>>
+          /\ nsub' = nsub \cup {e.pl} /\ UNCHANGED <<h, h2n, hsub, hUp, res, canc, tw, heldH, heldN>>
        \/ /\ e.a = "tohost" /\ n2h # <<>>
           /\ LET f == IF e.fault = "corrupt" THEN Garbage ELSE Head(n2h)
                  q == IF e.fault = "dup" THEN n2h ELSE Tail(n2h) IN
@@ -62,7 +62,9 @@ TNext ==
                ELSE /\ HostApply(e, IF e.late = 1 THEN StepRecvLate(h, <<f>>) ELSE StepRecv(h, <<f>>))
                     /\ (e.late = 1 => InWindow(e.t - tw))
                     /\ n2h' = q
-          /\ UNCHANGED <<n, hsub, nsub, nUp, canc>>
+          /\ heldH' = IF e.fault = "hold" THEN <<Head(n2h)>> ELSE heldH
+          /\ (e.fault = "hold" => heldH = <<>>)
+          /\ UNCHANGED <<n, hsub, nsub, nUp, canc, heldN>>
        \/ /\ e.a = "toncp" /\ h2n # <<>>
           /\ LET f == IF e.fault = "corrupt" THEN Garbage ELSE Head(h2n)
                  q == IF e.fault = "dup" THEN h2n ELSE Tail(h2n) IN
@@ -73,16 +75,25 @@ TNext ==
                     /\ n2h' = n2h \o Frames(e.out)
                     /\ nUp' = nUp \o Pls(e.out)
                     /\ h2n' = q
-          /\ UNCHANGED <<h, hsub, nsub, hUp, res, canc, tw>>
+          /\ heldN' = IF e.fault = "hold" THEN <<Head(h2n)>> ELSE heldN
+          /\ (e.fault = "hold" => heldN = <<>>)
+          /\ UNCHANGED <<h, hsub, nsub, hUp, res, canc, tw, heldH>>
+       \* the stalled copy of a duplicated frame arrives
+       \/ /\ e.a = "hrelease" /\ heldH # <<>> /\ HostApply(e, StepRecv(h, heldH)) /\ heldH' = <<>>
+          /\ UNCHANGED <<n, n2h, hsub, nsub, nUp, canc, heldN>>
+       \/ /\ e.a = "nrelease" /\ heldN # <<>>
+          /\ e.out = NRecvFn(n, heldN[1]).out /\ n' = NRecvFn(n, heldN[1]).h
+          /\ n2h' = n2h \o Frames(e.out) /\ nUp' = nUp \o Pls(e.out) /\ heldN' = <<>>
+          /\ UNCHANGED <<h, h2n, hsub, nsub, hUp, res, canc, tw, heldH>>
        \/ /\ e.a = "htick" /\ TimerEnabled(h) /\ InWindow(e.t - tw)
           /\ HostApply(e, StepTick(h))
-          /\ UNCHANGED <<n, n2h, hsub, nsub, nUp, canc>>
+          /\ UNCHANGED <<n, n2h, hsub, nsub, nUp, canc, heldH, heldN>>
        \/ /\ e.a = "ntick" /\ NTimerEnabled(n) /\ NcpApply(e, NTimerFn(n))
-          /\ UNCHANGED <<h, h2n, hsub, nsub, hUp, res, canc, tw>>
+          /\ UNCHANGED <<h, h2n, hsub, nsub, hUp, res, canc, tw, heldH, heldN>>
        \/ /\ e.a = "hcancel" /\ e.out = <<>> /\ canc' = canc \cup {e.id}
-          /\ UNCHANGED <<h, n, h2n, n2h, hsub, nsub, hUp, nUp, res, tw>>
+          /\ UNCHANGED <<h, n, h2n, n2h, hsub, nsub, hUp, nUp, res, tw, heldH, heldN>>
        \/ /\ e.a = "end" /\ e.pending = <<>> /\ e.out = <<>> /\ h.cur.id = 0 /\ h.q = <<>>
-          /\ UNCHANGED <<h, n, h2n, n2h, hsub, nsub, hUp, nUp, res, canc, tw>>
+          /\ UNCHANGED <<h, n, h2n, n2h, hsub, nsub, hUp, nUp, res, canc, tw, heldH, heldN>>
   /\ l' = l + 1
   /\ UNCHANGED tid
 TSpec == TInit /\ [][TNext]_tvars
